@@ -31,6 +31,7 @@ import (
 	"os/exec"
 	"path/filepath"
 	"strings"
+	"sync"
 	"time"
 
 	"github.com/coredns/coredns/plugin/pkg/dnstest"
@@ -320,7 +321,10 @@ func portFree(ips map[string]int, port int) bool {
 	return true
 }
 
-var childSeq int
+var (
+	childSeq int
+	childMu  sync.Mutex
+)
 
 func startChild(scratch string, conf srvConf, r *hlib.Rng) (*child, error) {
 	var lastErr error
@@ -331,8 +335,10 @@ func startChild(scratch string, conf srvConf, r *hlib.Rng) (*child, error) {
 		}
 		cc := childConf{Conf: conf, Path: dbPath(scratch, conf.Driver, "srv"), Port: port}
 		arg, _ := json.Marshal(cc)
+		childMu.Lock()
 		childSeq++
 		errlog := filepath.Join(scratch, fmt.Sprintf("c20-child-%d.err", childSeq))
+		childMu.Unlock()
 		ef, err := os.Create(errlog)
 		if err != nil {
 			return nil, err
@@ -861,28 +867,25 @@ func multiAddr(req *dns.Msg, maxAns int) bool {
 
 type runner struct {
 	scratch string
-	rng     *hlib.Rng
 	bare    bareSet
 	confs   []srvConf
 }
 
-func (ru *runner) runGroup(conf srvConf, plans []plan, e *hlib.Emitter) error {
-	ch, err := startChild(ru.scratch, conf, ru.rng)
+// runGroup runs the planned messages of one configuration against one server
+// process (restarted if it dies) and returns the cases in plan order.
+func (ru *runner) runGroup(conf srvConf, plans []plan, rng *hlib.Rng) ([]c20case, error) {
+	var out []c20case
+	ch, err := startChild(ru.scratch, conf, rng)
 	if err != nil {
-		return err
+		return nil, err
 	}
 	defer func() { ch.stop() }()
-	lap("child up")
-	bh, err := ru.bare.get(ru.scratch, conf.Driver, conf.Compress)
-	if err != nil {
-		return err
-	}
-	lap("bare open")
+	bh := ru.bare[fmt.Sprintf("%s/%v", conf.Driver, conf.Compress)]
 	for _, p := range plans {
 		if ch.exited() {
-			ch, err = startChild(ru.scratch, conf, ru.rng)
+			ch, err = startChild(ru.scratch, conf, rng)
 			if err != nil {
-				return err
+				return nil, err
 			}
 		}
 		tc0 := time.Now()
@@ -931,7 +934,7 @@ func (ru *runner) runGroup(conf srvConf, plans []plan, e *hlib.Emitter) error {
 			}
 		}
 		// is the server still there?
-		odd := !c.Reply.Got || strings.HasPrefix(p.class, "noquestion") || strings.HasPrefix(p.class, "twoquestions") || ru.rng.Chance(1, 20)
+		odd := !c.Reply.Got || strings.HasPrefix(p.class, "noquestion") || strings.HasPrefix(p.class, "twoquestions") || rng.Chance(1, 20)
 		if odd {
 			time.Sleep(20 * time.Millisecond)
 			c.Alive = !ch.exited() && probeAlive(p.ip, ch.port)
@@ -942,15 +945,15 @@ func (ru *runner) runGroup(conf srvConf, plans []plan, e *hlib.Emitter) error {
 			time.Sleep(100 * time.Millisecond)
 			c.Crash = ch.errTail()
 			ch.stop()
-			ch, err = startChild(ru.scratch, conf, ru.rng)
+			ch, err = startChild(ru.scratch, conf, rng)
 			if err != nil {
-				return err
+				return nil, err
 			}
 		}
 		c.Elapsed = time.Since(tc0).Milliseconds()
-		e.Emit(c)
+		out = append(out, c)
 	}
-	return nil
+	return out, nil
 }
 
 var t0 = time.Now()
@@ -983,7 +986,7 @@ func run(a *hlib.Args, e *hlib.Emitter) error {
 	if err := buildData(a.Scratch); err != nil {
 		return err
 	}
-	ru := &runner{scratch: a.Scratch, rng: hlib.NewRng(a.Seed, 2020), bare: bareSet{}, confs: allConfs()}
+	ru := &runner{scratch: a.Scratch, bare: bareSet{}, confs: allConfs()}
 	groups := map[string][]plan{}
 	var order []srvConf
 	addPlan := func(conf srvConf, p plan) {
@@ -1038,10 +1041,38 @@ func run(a *hlib.Args, e *hlib.Emitter) error {
 		}
 	}
 	lap("data built")
-	for _, conf := range order {
-		lap("group " + conf.key())
-		if err := ru.runGroup(conf, groups[conf.key()], e); err != nil {
+	for _, conf := range order { // open the bare handlers before the groups run concurrently
+		if _, err := ru.bare.get(a.Scratch, conf.Driver, conf.Compress); err != nil {
 			return err
+		}
+	}
+	lap("bare handlers open")
+	results := make([][]c20case, len(order))
+	errs := make([]error, len(order))
+	sem := make(chan struct{}, 4)
+	var wg sync.WaitGroup
+	for i, conf := range order {
+		wg.Add(1)
+		go func(i int, conf srvConf) {
+			defer wg.Done()
+			sem <- struct{}{}
+			defer func() { <-sem }()
+			results[i], errs[i] = ru.runGroup(conf, groups[conf.key()], hlib.NewRng(a.Seed, uint64(3000+i)))
+			lap("group done " + conf.key())
+		}(i, conf)
+	}
+	wg.Wait()
+	for i := range order {
+		if errs[i] != nil {
+			return errs[i]
+		}
+		for _, c := range results[i] {
+			e.Emit(c)
+		}
+	}
+	if files, _ := filepath.Glob(filepath.Join(a.Scratch, "c20-child-*.err")); len(files) > 0 {
+		for _, f := range files {
+			os.Remove(f)
 		}
 	}
 	return nil
